@@ -189,7 +189,8 @@ def _run_shard(args):
 
         @settings(max_examples=examples, database=None, deadline=None, derandomize=False,
                   suppress_health_check=list(HealthCheck), report_multiple_bugs=False,
-                  phases=[Phase.generate, Phase.shrink], print_blob=False)
+                  phases=[Phase.generate, Phase.shrink] if getattr(mod, "SHRINK", True) else [Phase.generate],
+                  print_blob=False)
         @hseed(derive(seed, cid, idx))
         @given(mod.strategy(tier))
         def prop(case):
